@@ -176,6 +176,7 @@ class Exes:
             else:
                 sin = subprocess.PIPE
                 data = unhx(sc['stdin']['data'])
+            ensure_dev_full()
             if sc['stdout'] == 'full':
                 sout = os.open('/dev/full', os.O_WRONLY)
                 fds.append(sout)
@@ -195,11 +196,36 @@ class Exes:
                 for fd in fds:
                     os.close(fd)
             after = snapshot(d)
+            if any(a == '/dev/full' for a in (x.decode('latin-1') for x in (unhx(h) for h in sc['argv']))) and not dev_full_ok():
+                # the tool under test removed or replaced the device it was told to write to
+                after[b'/dev/full'] = b'<REMOVED-OR-REPLACED>'
+                ensure_dev_full()
             return {'rc': rc, 'stdout': o if o is not None else None, 'stderr_raw': e,
                     'stderr': canon_stderr(e, self.help[key]), 'sanitizer': bool(SAN_RE.search(e)),
                     'before': before, 'after': after}
         finally:
             shutil.rmtree(d, ignore_errors=True)
+
+
+def dev_full_ok():
+    import stat
+    try:
+        return stat.S_ISCHR(os.stat('/dev/full').st_mode)
+    except OSError:
+        return False
+
+
+def ensure_dev_full():
+    """/dev/full is an output target of some scenarios; a tool that deletes its output path on failure
+    (run as root) takes the device with it: put it back so that the remaining scenarios mean what they say."""
+    if not dev_full_ok():
+        try:
+            if os.path.lexists('/dev/full'):
+                os.remove('/dev/full')
+            os.mknod('/dev/full', 0o666 | __import__('stat').S_IFCHR, os.makedev(1, 7))
+            os.chmod('/dev/full', 0o666)
+        except OSError:
+            pass
 
 
 def snapshot(d):
